@@ -74,27 +74,7 @@ func runC06(c *eng.Ctx) {
 	})
 
 	// ---- resets: both positions from one value in one write hold ------------------------------
-	reset := func(fnKey, mu string, fields []string, src string) {
-		c.Rule("ATOMIC", fnKey+"{reset}", func() {
-			f := c.Fn(fnKey)
-			ls := p.Locks(f, nil)
-			var first ssa.Instruction
-			for _, fld := range fields {
-				st := c.One(f, eng.StoreField(fld), "store to "+fld)
-				v, _ := storedValue(st.Instr)
-				c.Check(p.Desc(v) == src, "value:"+fld, st.Instr, f, "an explicit reset stores the same requested value into every position it touches", "stores "+p.Desc(v))
-				if first == nil {
-					first = st.Instr
-					c.Check(ls.At(first).HasField(mu, true), "locked", first, f, "reset happens under the write lock "+mu, "held: "+ls.At(first).String())
-				} else {
-					ok, why := ls.SameHold(first, st.Instr, mu, true)
-					c.Check(ok, "one-hold:"+fld, st.Instr, f, "all positions are reset in one write hold", why)
-				}
-				// a reset position is persisted like any other position change (a reopen restores the pair that was reset)
-				metaFollows(c, f, st.Instr, v, ".metaPage", mu)
-			}
-		})
-	}
+	reset := func(fnKey, mu string, fields []string, src string) { resetInOneHold(c, fnKey, mu, fields, src) }
 	reset(qT+".SetAppendedSeq", qMu, []string{qT + ".appendedSeq", qT + ".acknowledgedSeq"}, "seq")
 	reset(cgT+".SetSeq", cgMu, []string{cgT + ".consumedSeq", cgT + ".acknowledgedSeq"}, "seq")
 	reset(cgT+".SetConsumedSeq", cgMu, []string{cgT + ".consumedSeq"}, "seq")
@@ -587,4 +567,28 @@ func reachesBlock(from, to *ssa.BasicBlock) bool {
 
 func proveAtEdge(fs *eng.Facts, op string, x, y ssa.Value, pred, succ *ssa.BasicBlock) bool {
 	return fs.ProveOnEdge(op, x, y, pred, succ)
+}
+
+// resetInOneHold (shared by C05 and C06): an explicit reset stores the requested value into every position under one write hold and persists it in that hold.
+func resetInOneHold(c *eng.Ctx, fnKey, mu string, fields []string, src string) {
+	p := c.P
+	c.Rule("ATOMIC", fnKey+"{reset}", func() {
+		f := c.Fn(fnKey)
+		ls := p.Locks(f, nil)
+		var first ssa.Instruction
+		for _, fld := range fields {
+			st := c.One(f, eng.StoreField(fld), "store to "+fld)
+			v, _ := storedValue(st.Instr)
+			c.Check(p.Desc(v) == src, "value:"+fld, st.Instr, f, "an explicit reset stores the same requested value into every position it touches", "stores "+p.Desc(v))
+			if first == nil {
+				first = st.Instr
+				c.Check(ls.At(first).HasField(mu, true), "locked", first, f, "reset happens under the write lock "+mu, "held: "+ls.At(first).String())
+			} else {
+				ok, why := ls.SameHold(first, st.Instr, mu, true)
+				c.Check(ok, "one-hold:"+fld, st.Instr, f, "all positions are reset in one write hold", why)
+			}
+			// a reset position is persisted like any other position change (a reopen restores the pair that was reset)
+			metaFollows(c, f, st.Instr, v, ".metaPage", mu)
+		}
+	})
 }
